@@ -109,7 +109,7 @@ def _body(draw, n, depth, measure, visible, symbolic):
             else:
                 cond = {"t": "bitmask", "key": name, "index": -1, "target": draw(st.integers(0, 2 ** width - 1)),
                         "equal": draw(st.booleans()), "mask": draw(st.one_of(st.none(), st.integers(1, 2 ** width - 1)))}
-            items.append({"k": "cg", "g": g["g"], "w": g["w"], "conds": [cond]})
+            items.append({"k": "cg", "g": g["g"], "w": g["w"], "conds": [cond], "form": draw(st.sampled_from(["ccop", "ccop", "if"]))})
         else:
             sub = draw(_sub(n, depth - 1, measure, sorted(set(local + visible)), symbolic))
             if measure and (local or visible) and not _has_m(sub["body"]) and draw(st.integers(0, 1)) == 0:
@@ -120,6 +120,7 @@ def _body(draw, n, depth, measure, visible, symbolic):
                     sub["conds"] = [{"t": "key", "key": name, "index": -1}]
                 else:
                     sub["conds"] = [{"t": "eq", "key": name, "val": draw(st.integers(0, 2 ** width - 1))}]
+                sub["form"] = draw(st.sampled_from(["ccop", "ccop", "if"]))
             items.append(sub)
             # names measured inside become visible to later siblings only when they are not hidden behind ids/paths
             if not sub["ids"] and not sub["ppath"]:
@@ -234,6 +235,13 @@ def _ids_for(sub):
     return None
 
 
+def _controlled(op, it):
+    conds = [MC.build_condition(c) for c in it["conds"]]
+    if it.get("form") == "if":  # cirq.If: same meaning, its own key-protocol implementations
+        return cirq.If(conds if len(conds) > 1 else conds[0], op)
+    return op.with_classical_controls(*conds)
+
+
 def _build_items(items, qs):
     ops = []
     for it in items:
@@ -245,11 +253,11 @@ def _build_items(items, qs):
             ops.append(cirq.measure(*[qs[i] for i in it["w"]], key=it["key"], **kw))
         elif k == "cg":
             op = G.build_gate(it["g"]).on(*[qs[i] for i in it["w"]])
-            ops.append(op.with_classical_controls(*[MC.build_condition(c) for c in it["conds"]]))
+            ops.append(_controlled(op, it))
         else:
             op = _build_sub(it, qs)
             if it.get("conds"):
-                op = op.with_classical_controls(*[MC.build_condition(c) for c in it["conds"]])
+                op = _controlled(op, it)
             ops.append(op)
     return ops
 
